@@ -384,3 +384,63 @@ func VH_C06_ccw_Q() {
 		vAssert("C06.ccw.open_triangle", ccw == (area2 > 0))
 	}
 }
+
+// C06: Filling "reports for each subpath whether its interior is filled given the contours that
+// enclose it".  Nested and side-by-side rectangles (three nesting structures), every combination
+// of orientations, the four fill rules, two placements (all concrete: an enumeration by the engine, not a
+// solver verdict over symbolic input).  A
+// subpath's interior is filled iff the rule fills the winding number just inside it: its own
+// orientation (+1 counter clockwise, -1 clockwise) plus the orientations of the contours around it.
+func VH_C06_filling_Q() {
+	structure := vChoose(0, 2)
+	d := []float64{0, 0.5}[vChoose(0, 1)] // concrete: CCW works with angles (atan2), which stay outside the solver
+	// rectangles as (x0,y0,x1,y1) and, per rectangle, the indices of those that enclose it
+	var rs [][4]float64
+	var encl [][]int
+	switch structure {
+	case 0: // three nested
+		rs = [][4]float64{{0, 0, 20, 20}, {3 + d, 3, 17, 17}, {6 + d, 6, 14, 14}}
+		encl = [][]int{{}, {0}, {0, 1}}
+	case 1: // two siblings inside one
+		rs = [][4]float64{{0, 0, 20, 20}, {2 + d, 2, 8, 8}, {11 + d, 11, 18, 18}}
+		encl = [][]int{{}, {0}, {0}}
+	default: // two side by side, the second with a hole
+		rs = [][4]float64{{0, 0, 6, 6}, {10 + d, 0, 20, 10}, {12 + d, 2, 18, 8}}
+		encl = [][]int{{}, {}, {1}}
+	}
+	ccw := make([]bool, len(rs))
+	p := &Path{}
+	for i, r := range rs {
+		ccw[i] = vChoose(0, 1) == 1
+		pg := vhRect(r[0], r[1], r[2], r[3], ccw[i])
+		p.MoveTo(pg[0][0], pg[0][1])
+		for _, v := range pg[1:] {
+			p.LineTo(v[0], v[1])
+		}
+		p.Close()
+	}
+	rule := FillRule(vChoose(0, 3))
+	before := vhCopyData(p.d)
+	got := p.Filling(rule)
+	vAssert("C06.filling.receiver_unchanged", vhSameData(p.d, before))
+	vAssert("C06.filling.one_flag_per_subpath", len(got) == len(rs))
+	if len(got) != len(rs) {
+		return
+	}
+	good := true
+	for i := range rs {
+		n := -1
+		if ccw[i] {
+			n = 1
+		}
+		for _, j := range encl[i] {
+			if ccw[j] {
+				n++
+			} else {
+				n--
+			}
+		}
+		good = good && got[i] == rule.Fills(n)
+	}
+	vAssert("C06.filling.flag_is_rule_of_winding_inside", good)
+}
